@@ -90,6 +90,8 @@ fn err_class(msg: &str) -> String {
         format!("err extender {}", num_after("line "))
     } else if msg.contains("exit code provided multiple times") {
         format!("err exit-code-twice {}", num_after("line "))
+    } else if msg.contains("output expectation or exit code given") {
+        format!("err body-without-command {}", num_after("line "))
     } else if msg.contains("exit code given") {
         format!("err exit-code-without-command {}", num_after("line "))
     } else if msg.contains("no shell expression specified") {
@@ -245,15 +247,12 @@ fn structural(text: &str, real: &Real) -> Vec<(String, String)> {
                 let prev_start = prev;
                 prev = t.line;
                 let ncmd = t.cmd.split('\n').count();
-                // (expectation lines written before the `$` line inside the block are attached to the
-                // test as well - recorded as an observation in the notes; here only "is a line of
-                // the document, in order, after the previous test")
-                let _ = ncmd;
-                let mut at = prev_start;
+                let _ = prev_start;
+                let mut at = t.line - 1 + ncmd; // first line after the command
                 for e in &t.exps {
                     match (at..lines.len()).find(|i| lines[*i] == e) {
                         Some(i) => at = i + 1,
-                        None => f.push(("C06:expectation-text".to_string(), format!("expectation `{}` of the test at line {} is not a line of the document after the previous test", e, t.line))),
+                        None => f.push(("C06:expectation-text".to_string(), format!("expectation `{}` of the test at line {} is not a line of the document after its command", e, t.line))),
                     }
                 }
             }
@@ -648,6 +647,12 @@ fn witnesses() -> Vec<(&'static str, &'static str, &'static str, fn(&Real) -> bo
             no_tests_ok,
         ),
         (
+            "C06:expectation-before-command",
+            "```scrut\nout\n$ echo out\n```\n",
+            "an expectation line written before the `$` line has no command: an error, not an expectation of the command that follows it (repaired by 67abd12)",
+            |r| matches!(r, Real::Ok(_, ts) if ts.len() == 1 && !ts[0].exps.is_empty()),
+        ),
+        (
             "C06:config-dropped",
             "```scrut {timeout: 1s} \n$ true\n```\n",
             "the inline configuration followed by a blank must be applied or rejected, not silently ignored",
@@ -779,7 +784,6 @@ pub fn run(ctx: &Ctx, prop: &str) {
         let text = format!("{}\n$ cmd\nout\n```\n# T\n```scrut\n$ two\n```", fence.replace('s', "scrut"));
         Some(case_of(prop, &text, vec![], vec!["fence-line".into()]))
     });
-    ctx.note("observation (not counted as a violation): inside a scrut block, expectation lines written before the `$` line are attached to the command that follows them (```scrut / out / $ echo out / ``` gives one test expecting `out`) instead of being rejected".to_string());
     // 6. witnesses of the stricter readings
     let w = witnesses();
     ctx.run_stream("reading-witnesses", w.len() as u64, true, |idx| {
